@@ -68,6 +68,12 @@ def check(run, project):
     # another decode left open, and reject a well-formed encoding)
     from .c03 import r4
     r4(run, roles)
+    # W10: the pump forwards every event of a non-stream decode: its one silent return (end of input at the root event of a
+    # new message) is restricted to the command/response stream, else the root event of a zero-length structure decoded at
+    # top level is swallowed (the rule is C05-E3, re-used here under its own name)
+    from ..report import RuleView
+    from . import c05
+    c05.check(RuleView(run, "E3", "W10"), project)
     run.floor("W0", 700, "pinned types")
     run.floor("W1", 719, "types classified")
     run.floor("W3", 7, "container walkers")
